@@ -225,7 +225,7 @@ fn sel3() -> BoxedStrategy<[bool; 3]> {
 
 fn mod_strategy(max_from: usize) -> BoxedStrategy<Mod> {
     let imp = (0..max_from.max(1), prop_oneof![2 => Just(None), 3 => sel3().prop_map(Some)]).prop_map(|(from, select)| Imp { from, select });
-    (sel3(), prop_oneof![2 => Just([true, true, true]), 2 => sel3(), 1 => Just([false, false, false])], proptest::collection::vec(imp, 0..=3), prop::bool::weighted(0.6), prop::bool::weighted(0.5), prop::bool::weighted(0.3))
+    (sel3(), prop_oneof![2 => Just([true, true, true]), 2 => sel3(), 1 => Just([false, false, false])], proptest::collection::vec(imp, 0..=3), prop::bool::weighted(0.6), prop::bool::weighted(0.5), prop::bool::weighted(0.12))
         .prop_map(|(defs, exports, imports, meta, dynamic, defs_first)| Mod { defs, exports, imports, meta, dynamic, defs_first })
         .boxed()
 }
@@ -339,7 +339,11 @@ pub fn check(env: &mut Env, case: &Case) -> Verdict {
             let local = md.defs[n];
             let how = if local {
                 if md.imports.iter().any(|imp| c.mods[imp.from].exports[n] && imp.select.map(|s| s[n]).unwrap_or(true)) {
-                    "local-shadows-import"
+                    if md.defs_first {
+                        "local-before-import"
+                    } else {
+                        "local-shadows-import"
+                    }
                 } else {
                     "local"
                 }
